@@ -233,6 +233,39 @@ func VerifC04Children() {
 	vReach("end")
 }
 
+// VerifC04Mixed: a target voxel filled by members of DIFFERENT depths — its lower half as one child (one level
+// finer vertically) and its upper half as two grandchildren (two levels finer) — in every list order (case ord 0..5);
+// with drop >= 0 one of the three is left out.  Complete: exactly the parent; incomplete: returned unchanged.
+func VerifC04Mixed() {
+	H := vCase("H")
+	V := vCase("V")
+	ord := vCase("ord")
+	drop := vCase("drop")
+	T := vNondetVox("t", 0, H, V)
+	m := []vVox{
+		{H, T.x, T.y, V + 1, T.f << 1},
+		{H, T.x, T.y, V + 2, T.f<<2 + 2},
+		{H, T.x, T.y, V + 2, T.f<<2 + 3},
+	}
+	perm := [][]int{{0, 1, 2}, {0, 2, 1}, {1, 0, 2}, {1, 2, 0}, {2, 0, 1}, {2, 1, 0}}[ord]
+	in := make([]vVox, 0, 3)
+	ids := make([]string, 0, 3)
+	for _, k := range perm {
+		if int64(k) == drop {
+			continue
+		}
+		in = append(in, m[k])
+		ids = append(ids, m[k].id())
+	}
+	got, err := MergeExtendedSpatialIds(ids, H, V)
+	vAssert(err == nil, "valid IDs and zooms are accepted")
+	vCheckMerge(in, got, H, V, H, V+2)
+	if drop < 0 {
+		vAssert(len(got) == 1 && got[0] == T.id(), "members of different depths that fill the voxel merge into exactly the parent, in every order")
+	}
+	vReach("end")
+}
+
 // VerifC04Spatial: the z/f/x/y API on the complete child set.
 func VerifC04Spatial() {
 	Z := vCase("Z")
